@@ -61,6 +61,17 @@ FrameDropna(f, axis, cond) ==
              [j \in 1..Len(keepc) |-> [dt |-> At(f.cols, keepc[j]).dt, vals |-> Take(At(f.cols, keepc[j]).vals, keepr)]], f.name)
 FrameFillna(f, v) == MkFrame(f.index, f.columns,
    [j \in 1..NCols(f) |-> FilledCol(f.cols[j], [i \in 1..NRows(f) |-> IF IsNA(f.cols[j].vals[i]) THEN v ELSE f.cols[j].vals[i]], v)], f.name)
+(* fillna with a labelled Frame: a missing cell takes the value's cell for its (row label, column label), if the value has  *)
+(* both labels and holds a non-missing cell there; every other cell - in particular every cell of a column or row the value   *)
+(* does not cover - is untouched.  As built the dtype of a filled column depends on the dtypes of ALL columns of the value     *)
+(* (it is re-indexed and read as one 2-D array), so the result is stated dtype-free and with one missing marker (LooseCols).  *)
+FillFromFrame(f, val, i, j) ==
+  LET pc == Find(val.columns, f.columns[j])
+      pr == Find(val.index, f.index[i])
+      old == f.cols[j].vals[i]
+  IN IF IsNA(old) /\ pc >= 0 /\ pr >= 0 /\ ~IsNA(At(At(val.cols, pc).vals, pr)) THEN At(At(val.cols, pc).vals, pr) ELSE old
+FrameFillnaFrame(f, val) ==
+  MkFrame(f.index, f.columns, [j \in 1..NCols(f) |-> [dt |-> f.cols[j].dt, vals |-> [i \in 1..NRows(f) |-> FillFromFrame(f, val, i, j)]]], f.name)
 FrameCount(f, axis) ==
   IF axis = 0 THEN MkSeries(f.columns, [j \in 1..NCols(f) |-> <<"i", CountValid(f.cols[j].vals)>>], DtI64, None)
   ELSE MkSeries(f.index, [i \in 1..NRows(f) |-> <<"i", CountValid(RowVals(f, i))>>], DtI64, None)
